@@ -336,7 +336,8 @@ def decide(dec: dict, ent: str, old, new, model: dict, future: dict | None = Non
                 return fut[0] if kind == "v" else fut[1][ref[2]]
             if unlisted:
                 # not pre-set by the snapshot: resolved when evaluated, undefined raises
-                src = future if (future is not None and kind in ("v", "attr") and name != ent) else None
+                # (an unlisted attribute of the changed entity itself is also resolved when evaluated)
+                src = future if (future is not None and kind in ("v", "attr") and not (name == ent and kind == "v")) else None
                 base = env("v" if kind in ("v", "attr") else "old", name) if src is None else src.get(name)
                 if kind in ("old", "oldattr") and name != ent:
                     raise X.EvalError("undefined .old of unlisted name")
